@@ -59,6 +59,23 @@ def cmd_check(args):
     total = kernel.run_batch(pid, [(base, i) for i in range(runs)], tier, workers=workers,
                              chunk=args.chunk or mod_chunk(mod), budget_s=budget,
                              opts={'child_timeout': 900})
+    # the corpus: stored minimised histories that once told a faulty library from a correct one (one per seeded change,
+    # see seeded/*/meta.json) are replayed on every check, each in a fresh process - what the generators produce may
+    # drift as the harness grows, these histories do not
+    corpus = load_corpus(pid)
+    if corpus:
+        res = kernel.eval_many(pid, [c['prefix'] + [c['plan']] for c in corpus], workers=workers)
+        stale = 0
+        for c, (tag, v) in zip(corpus, res):
+            if tag != 'ok':
+                stale += 1
+            elif v is not None:
+                total['violations'].append({'seed': c['plan']['header'].get('seed'), 'plan': c['plan'], 'violation': v,
+                                            'prefix': c['prefix']})
+        total['probes']['corpus_histories_replayed'] = len(corpus) - stale
+        if stale:
+            print(f"WARNING: {stale} stored corpus histories could not be executed by the current harness (stale)",
+                  flush=True)
     wall = time.time() - t0
     rc = 0
     viol_lines = []
@@ -106,6 +123,20 @@ def cmd_check(args):
           f"{len(total['shapes'])} interleavings, {len(total['states'])} states in {wall:.1f}s "
           f"({rate:,.0f} runs/h); faults {dict(total['faults'])}; exit {rc}", flush=True)
     return rc
+
+
+def load_corpus(pid):
+    d = os.path.join(VERIF, 'corpus', pid)
+    out = []
+    if os.path.isdir(d) and not os.environ.get('VERIF_NO_CORPUS'):
+        for fn in sorted(os.listdir(d)):
+            if fn.endswith('.json'):
+                with open(os.path.join(d, fn)) as f:
+                    plan = json.load(f)
+                prefix = plan.pop('prefix', [])
+                plan.pop('violation', None)
+                out.append({'file': fn, 'plan': plan, 'prefix': prefix})
+    return out
 
 
 def hashseed_sample(pid, tier, base, nruns, n=None):
